@@ -513,6 +513,25 @@ func (c *Ctx) enterLoop(fr *Frame, li *loopInfo, st *State) {
 			if _, ok := c.heapSorts[k]; !ok {
 				continue
 			}
+			if bases := mod.bases[k]; len(bases) > 0 && !mod.whole[k] && strings.HasPrefix(k, "A:") {
+				// only the arrays of these loop-invariant slices are written in the loop
+				h := c.heapSym(st, k)
+				elemSort := strings.TrimSuffix(strings.TrimPrefix(c.heapSorts[k], "(Array Int "), ")")
+				okAll := true
+				for _, bv := range bases {
+					v, have := fr.vals[bv]
+					if !have || v.S == "" {
+						okAll = false
+						break
+					}
+					fa := c.decl("looparr", elemSort)
+					h = c.def("heap", c.heapSorts[k], fmt.Sprintf("(store %s (s_arr %s) %s)", h, v.S, fa))
+				}
+				if okAll {
+					st.heaps[k] = h
+					continue
+				}
+			}
 			st.heaps[k] = c.decl("loopheap_"+sanitize(k), c.heapSorts[k])
 		}
 		if mod.allocs {
@@ -548,14 +567,49 @@ type modSet struct {
 	all    bool
 	allocs bool
 	ghost  bool
+	bases  map[string][]ssa.Value // A: keys written only through these (loop-invariant) slices
+	whole  map[string]bool        // A: keys that must be havocked entirely
 }
 
 // loopMods over-approximates what a loop body may modify.
 func (c *Ctx) loopMods(fr *Frame, li *loopInfo) modSet {
-	ms := modSet{keys: map[string]bool{}}
+	ms := modSet{keys: map[string]bool{}, bases: map[string][]ssa.Value{}, whole: map[string]bool{}}
 	for b := range li.body {
 		for _, in := range b.Instrs {
+			if st, ok := in.(*ssa.Store); ok {
+				if ia, ok := st.Addr.(*ssa.IndexAddr); ok {
+					if _, isSlice := ia.X.Type().Underlying().(*types.Slice); isSlice {
+						key, _ := c.ptrKeyOf(fr, st.Addr)
+						if outsideLoop(li, ia.X) {
+							ms.bases[key] = append(ms.bases[key], ia.X)
+							ms.keys[key] = true
+							continue
+						}
+					}
+				}
+			}
+			before := map[string]bool{}
+			for k := range ms.keys {
+				before[k] = true
+			}
 			c.instrMods(fr, in, &ms, 0)
+			for k := range ms.keys {
+				if !before[k] && strings.HasPrefix(k, "A:") {
+					ms.whole[k] = true
+				}
+			}
+			if st, ok := in.(*ssa.Store); ok {
+				if k, ok := c.ptrKeyOf(fr, st.Addr); ok && strings.HasPrefix(k, "A:") {
+					ms.whole[k] = true
+				}
+			}
+			if _, ok := in.(ssa.CallInstruction); ok {
+				for k := range ms.keys {
+					if strings.HasPrefix(k, "A:") && !before[k] {
+						ms.whole[k] = true
+					}
+				}
+			}
 		}
 	}
 	return ms
@@ -1799,4 +1853,15 @@ func privateAlloc(a *ssa.Alloc) bool {
 		return true
 	}
 	return ok(a, false)
+}
+
+// outsideLoop: v is defined outside the loop (a parameter, or an instruction of a block not in the loop body).
+func outsideLoop(li *loopInfo, v ssa.Value) bool {
+	switch x := v.(type) {
+	case *ssa.Parameter, *ssa.Const, *ssa.FreeVar:
+		return true
+	case ssa.Instruction:
+		return !li.body[x.Block()]
+	}
+	return false
 }
